@@ -353,6 +353,32 @@ func runC19(c *ctx) {
 		// input ending inside a token / invalid UTF-8 (termination only)
 		add("invalid-utf8", string(g.walk(4, true))+"\xff"+string(g.walk(4, true)), 0)
 		add("invalid-utf8-2", "\xc3", 0)
+		// lexemes as long as the reader's documented limit allows: lexeme plus the character read ahead fill one half of the
+		// buffer (4096 bytes) exactly, or stay just below it
+		{
+			var loop rune
+			for _, cand := range []rune{'a', 'x', '1', '0', 'z', 'q', 'k'} {
+				if s1 := e.dfa.step(e.dfa.start, cand); s1 >= 0 {
+					if _, acc := e.owner[s1]; acc && e.dfa.step(s1, cand) == s1 {
+						loop = cand
+						break
+					}
+				}
+			}
+			if loop != 0 {
+				for _, n := range []int{4000, 4090, 4092, 4093, 4094, 4095} {
+					for _, after := range []string{"", " ", "\n", "→", "é"} {
+						if n+len(after) > 4096 {
+							continue
+						}
+						for _, pad := range []int{0, 1, 3, 4090} {
+							add(fmt.Sprintf("long-lexeme-%d+%q/pad%d", n, after, pad), strings.Repeat(" ", pad)+strings.Repeat(string(loop), n)+after+" "+string(loop), 0)
+						}
+					}
+				}
+				c.count("specifications_with_lexemes_at_the_buffer_limit", 1)
+			}
+		}
 		// a token that STARTS with a multi-byte character, placed so that this character straddles each buffer boundary,
 		// with more than a buffer of input after it
 		{
